@@ -47,7 +47,7 @@ func init() {
 			"file-store histories run one store at a time per child process",
 		},
 		MinObs: func(tier string) map[string]int64 {
-			return map[string]int64{"histories": 100, "overlapping_pairs": 2000, "porcupine_ok": 100, "directed_schedules": 8,
+			return map[string]int64{"storms": 30, "histories": 100, "overlapping_pairs": 2000, "porcupine_ok": 100, "directed_schedules": 8,
 				"hook_hits_mem.add.visible": 50, "hook_hits_file.fs": 50, "hook_hits_file.visit.level": 20}
 		},
 		Run: run,
@@ -510,6 +510,7 @@ func run(c *fw.Ctx) {
 	n := c.N(1200, 30000)
 	c.Cases("stress", n, func(i int, r *fw.Rand) { stress(c, i, r) })
 	c.Cases("directed", c.N(48, 480), func(i int, r *fw.Rand) { directed(c, i, r) })
+	c.Cases("storm", c.N(120, 1800), func(i int, r *fw.Rand) { storm(c, i, r) })
 	verifhook.Set(nil)
 }
 
@@ -697,6 +698,163 @@ func stress(c *fw.Ctx, idx int, r *fw.Rand) {
 	}
 	rec.merge(fin)
 	judge(c, cf, rec, fmt.Sprintf("stress cfg=%s procs=%d clients=%d ops=%d boxes=%d", cf.name, procs, nclients, nops, nmb), total)
+}
+
+// storm: many goroutines deliver at full speed (with a little reading, removing and purging on
+// the side) so that cap evictions, size evictions and removals keep colliding.  Histories are too
+// large for the linearizability checker; decided here are completion (no deadlock), survival of
+// the process, the race log, and invariants at the final quiescent point: ids pairwise distinct,
+// every listed message was delivered and not removed by a client before the last delivery
+// started, no more than the cap per mailbox, no more than the size limit in total, and without
+// limits every delivery that nothing removed is present.
+func storm(c *fw.Ctx, idx int, r *fw.Rand) {
+	cf := configs[idx%len(configs)]
+	procs := []int{2, 4, 16}[(idx/len(configs))%3]
+	old := runtime.GOMAXPROCS(procs)
+	defer runtime.GOMAXPROCS(old)
+	verifhook.Set(func(site string, args ...string) { countHook(site) })
+	defer verifhook.Set(nil)
+	defer flushHookCounts(c)
+	host := extension.NewHost()
+	st := newStore(c, cf, host)
+	boxes := []string{bucketPair[0], bucketPair[1], "solo"}[:r.Range(2, 3)]
+	nwriters := r.Range(3, 8)
+	nadds := r.Range(20, 70)
+	if cf.backend == "file" {
+		nadds = r.Range(10, 30)
+	}
+	withRemovals := r.Chance(1, 3)
+	now := time.Now()
+	type added struct{ mb, id string }
+	addedBy := make([][]added, nwriters)
+	removed := make([][]added, nwriters)
+	purged := make([]bool, nwriters)
+	var errs []string
+	var emu sync.Mutex
+	fail := func(format string, a ...any) {
+		emu.Lock()
+		if len(errs) < 5 {
+			errs = append(errs, fmt.Sprintf(format, a...))
+		}
+		emu.Unlock()
+	}
+	seeds := make([]uint64, nwriters)
+	for i := range seeds {
+		seeds[i] = r.Uint64()
+	}
+	var wg sync.WaitGroup
+	start := make(chan struct{})
+	ok, dump := c.Within(120*time.Second, func() {
+		for w := 0; w < nwriters; w++ {
+			wg.Add(1)
+			go func(w int) {
+				defer wg.Done()
+				lr := fw.NewRand(seeds[w], "storm")
+				<-start
+				for k := 0; k < nadds; k++ {
+					mb := boxes[lr.Intn(len(boxes))]
+					body := strings.Repeat("y", lr.Range(200, 1100))
+					id, err := st.AddMessage(sut.NewDelivery(mb, nil, nil, "s", now, []byte(body)))
+					if err != nil {
+						fail("AddMessage(%q): %v", mb, err)
+						continue
+					}
+					addedBy[w] = append(addedBy[w], added{mb, id})
+					switch {
+					case lr.Chance(1, 10):
+						if _, err := st.GetMessages(mb); err != nil {
+							fail("GetMessages(%q): %v", mb, err)
+						}
+					case lr.Chance(1, 12):
+						if err := st.VisitMailboxes(func([]storage.Message) bool { return true }); err != nil {
+							fail("VisitMailboxes: %v", err)
+						}
+					case withRemovals && lr.Chance(1, 6) && len(addedBy[w]) > 0:
+						a := addedBy[w][lr.Intn(len(addedBy[w]))]
+						if err := st.RemoveMessage(a.mb, a.id); err == nil {
+							removed[w] = append(removed[w], a)
+						} else if !notExist(err) {
+							fail("RemoveMessage: %v", err)
+						}
+					case withRemovals && lr.Chance(1, 25):
+						purged[w] = true
+						if err := st.PurgeMessages(mb); err != nil {
+							fail("PurgeMessages: %v", err)
+						}
+					}
+				}
+			}(w)
+		}
+		close(start)
+		wg.Wait()
+	})
+	if !ok {
+		c.Hang("store-ops", fmt.Sprintf("concurrent deliveries did not complete (config %s, %d writers x %d adds)", cf.name, nwriters, nadds), dump)
+		return
+	}
+	desc := fmt.Sprintf("storm cfg=%s procs=%d writers=%d adds=%d boxes=%d removals=%v", cf.name, procs, nwriters, nadds, len(boxes), withRemovals)
+	for _, e := range errs {
+		key := "C09:op-error"
+		if strings.Contains(e, "VisitMailboxes") {
+			key = "C09:visit-error"
+		}
+		c.Violation(key, desc+": "+e, nil)
+	}
+	all := map[string]bool{}
+	gone := map[string]bool{}
+	anyPurge := false
+	n := 0
+	for w := range addedBy {
+		for _, a := range addedBy[w] {
+			k := a.mb + "\x00" + a.id
+			if all[k] {
+				c.Violation("C09:duplicate-id", fmt.Sprintf("%s: two deliveries to %q received the same id %q", desc, a.mb, a.id), nil)
+			}
+			all[k] = true
+			n++
+		}
+		for _, a := range removed[w] {
+			gone[a.mb+"\x00"+a.id] = true
+		}
+		anyPurge = anyPurge || purged[w]
+	}
+	var total int64
+	present := 0
+	for _, mb := range boxes {
+		ms, err := st.GetMessages(mb)
+		if err != nil {
+			c.Violation("C09:op-error", desc+": final GetMessages: "+err.Error(), nil)
+			return
+		}
+		seen := map[string]bool{}
+		for _, m := range ms {
+			k := mb + "\x00" + m.ID()
+			total += m.Size()
+			present++
+			if seen[k] {
+				c.Violation("C09:duplicate-id", fmt.Sprintf("%s: mailbox %q lists id %q twice", desc, mb, m.ID()), nil)
+			}
+			seen[k] = true
+			if !all[k] {
+				c.Violation("C09:phantom-message", fmt.Sprintf("%s: mailbox %q lists %q which no delivery returned", desc, mb, m.ID()), nil)
+			}
+			if gone[k] {
+				c.Violation("C09:removed-message-present", fmt.Sprintf("%s: mailbox %q still lists %q after RemoveMessage succeeded", desc, mb, m.ID()), nil)
+			}
+		}
+		if cf.cap > 0 && len(ms) > cf.cap {
+			c.Violation("C09:cap-exceeded-at-rest", fmt.Sprintf("%s: mailbox %q lists %d messages, cap %d", desc, mb, len(ms), cf.cap), nil)
+		}
+	}
+	if cf.maxkb > 0 && total > int64(cf.maxkb)*1024 {
+		c.Violation("C09:size-limit-exceeded-at-rest", fmt.Sprintf("%s: %d bytes stored at rest, limit %d", desc, total, cf.maxkb*1024), nil)
+	}
+	if cf.cap == 0 && cf.maxkb == 0 && !anyPurge && present != n-len(gone) {
+		c.Violation("C09:delivery-lost", fmt.Sprintf("%s: %d deliveries returned an id, %d were removed by clients, but %d are present", desc, n, len(gone), present), nil)
+	}
+	c.Count("storms", 1)
+	c.Count("storm_deliveries", int64(n))
+	c.NonTrivial(fmt.Sprintf("storm|%s|%d|%d|%v", cf.name, procs, nwriters, withRemovals))
 }
 
 // judge checks the recorded history.
